@@ -90,6 +90,10 @@ func includeTag(target string, style int, vars map[string]string) string {
 		v := "ext_" + strings.TrimPrefix(ext, ".")
 		vars[v] = ext
 		return "{% include '" + base + "' | append: " + v + " %}"
+	case 6: // a filter with two arguments: the expression has commas of its own
+		return "{% include \"" + strings.ReplaceAll(target, ".", "§") + "\" | replace: \"§\", \".\" %}"
+	case 7: // ... and a name with a comma in a string literal that a filter removes again
+		return "{% include \"," + target + ",\" | remove: \",\" %}"
 	}
 	return "{% include \"" + target + "\" %}"
 }
@@ -436,7 +440,7 @@ func TestC14(t *testing.T) {
 	}
 
 	g := c14Graph.On(col, "rapid: acyclic include graphs (chains up to depth 4 in the top template's directory, leaves in nested sub-directories and above the directory (../up.html), the same base name in several directories with distinct content; for a third of the cases a second top-level template in the sub-directory d1 is rendered on the same engine afterwards and reaches the same files under other relative names) laid out in a fresh temporary directory per case; every file is independently on disk, only registered through ParseTemplateAndCache, both with different content, zero bytes on disk with cached source, or missing; include arguments spelled as double/single-quoted literals, bound variables, variables assigned earlier in the render and filtered expressions; bodies print bound and includer-assigned variables, loop and branch. Metamorphic oracle: render(T) = render(T with every include replaced, recursively, by the content the statement selects: disk over cache), same path and bindings; a missing file fails the render with no output; an error inside an included template fails both. Non-trivial: an include resolved from a nested directory, from the cache, or with disk and cache disagreeing; distinct by layout", false)
-	texts := []string{"t", " [{{ n }}] ", "{{ s | upcase }}", "{% assign pv = n | plus: 1 %}{{ pv }}", "{% if n == 1 %}one{% else %}other{% endif %}", "{% for q in a %}{{ q }},{% endfor %}", "{{ shared }}", "\n", "{% assign shared = \"set-by-includer\" %}", "{{ 1 | divided_by: n }}", "20% off %d %s%%", "{% raw %}{% if x %}{% endraw %}",
+	texts := []string{"t", " [{{ n }}] ", "{{ s | upcase }}", "{% assign pv = n | plus: 1 %}{{ pv }}", "{% if n == 1 %}one{% else %}other{% endif %}", "{% for q in a %}{{ q }},{% endfor %}", "{{ shared }}", "\n", "{% assign shared = \"set-by-includer\" %}", "{{ 1 | divided_by: n }}", "20% off %d %s%%", "{% raw %}{% if x %}{% endraw %}", "{{ lv }}/{{ lvv }}", "{{ lvv }}",
 		"  "}
 	// whitespace control at the outer edge of a file: the first piece of a file may begin, the last may end, with a hyphenated
 	// tag (facing the file's boundary); an includer has white space next to the include tag, and sometimes a hyphen
@@ -469,7 +473,7 @@ func TestC14(t *testing.T) {
 		// the path the *rendered template* was parsed with, i.e. the top template's directory, at every depth
 		mids := []string{"d1/other.html", "d1/d2/mid.html"}
 		chain := []string{"a.html", "b.html", "c.html", "d.html"}
-		style := func() int { return rapid.IntRange(0, 5).Draw(t, "style") }
+		style := func() int { return rapid.IntRange(0, 7).Draw(t, "style") }
 		// an include tag, sometimes with a hyphenated tag or object of the includer facing it: the included output is
 		// inserted exactly ("inserts exactly the output that rendering that file's content directly would give"), as a value is
 		include := func(ps []c14Piece, target string) []c14Piece {
@@ -541,6 +545,12 @@ func TestC14(t *testing.T) {
 			target := "a.html"
 			if rapid.Bool().Draw(t, "topleaf") {
 				target = rapid.SampledFrom(append(append(append([]string{}, leaves...), mids...), chain...)).Draw(t, "toptarget")
+			}
+			// in the top template the same include tag is sometimes run twice, with a loop variable and an assigned
+			// variable that change in between (only there: what an included template assigns need not reach its includer)
+			if rapid.IntRange(0, 3).Draw(t, "looped") == 0 {
+				c.Top = append(c.Top, c14Piece{Text: "{% for lv in (1..2) %}{% assign lvv = lv | times: 10 %}"}, c14Piece{Target: target, Style: style()}, c14Piece{Text: "{% endfor %}"}, genText(t, "top"))
+				continue
 			}
 			c.Top = append(c.Top, c14Piece{Target: target, Style: style()}, genText(t, "top"))
 		}
